@@ -319,7 +319,7 @@ var c01WriterNames = map[uint64]string{0: "blockstore", 1: "storage-rw-file", 2:
 
 func init() {
 	register("c01", func(c *Ctx) {
-		nArch := 30 * c.Scale
+		nArch := 25 * c.Scale
 		emit := func(wk uint64, o wOpts, roots []cid.Cid, h [][]Blk, dag *gdag, plain bool, all []Blk, nontrivial bool) {
 			obs, vs := c01RunImpl(c, wk, o, roots, h, dag, plain)
 			c.Emit("rt", c01Input(wk, o, roots, h, vs, all), obs, nontrivial)
@@ -367,6 +367,91 @@ func init() {
 			c.Emit("rtload", in, c01LoadObs(file), true)
 			c.Count("many-blocks:" + c01WriterNames[wk])
 		}
+		// ---- reader histories (kind rthist) and positioned sources (kind rtpos), on freshly written archives
+		for a := 0; a < 4*c.Scale; a++ {
+			r := c.R.Fork()
+			kind := uint64(a % 3)
+			nr := 2 + r.Intn(3)
+			var files [][]byte
+			expect := VL{}
+			var all []Blk
+			for i := 0; i < nr; i++ {
+				blks := genBlocks(r, r.Intn(6), genOpts{identity: true, maxData: 120})
+				roots := c01Roots(r, blks)
+				if len(roots) == 0 {
+					roots = []cid.Cid{genBlock(r, genOpts{maxData: 8}).Cid} // root and carv1 readers reject empty roots
+				}
+				o := defaultWOpts
+				o.storeID, o.dups = true, true
+				o.v1 = kind != 2 || r.Bool()
+				o.dpad = uint64(pick(r, []int{0, 7}))
+				file, class, _ := c01Write(c, pick(r, []uint64{0, 2}), o, roots, c01Batches(r, blks), nil, false)
+				if class != "" {
+					panic("c01: writer failed: " + class)
+				}
+				files = append(files, file)
+				expect = append(expect, VL{cidsVal(roots), blksVal(blks)})
+				all = append(all, blks...)
+			}
+			// schedule: every reader is opened once; Next calls interleave at random; each reader gets
+			// enough Next calls to pass its end twice; readers are opened late on purpose (a reader created
+			// after another one is exhausted is handed that one's pooled bufio.Reader)
+			remaining := make([]int, nr)
+			opened := make([]bool, nr)
+			for i := range remaining {
+				remaining[i] = len(expect[i].(VL)[1].(VL)) + 2 + r.Intn(2)
+			}
+			sched := VL{}
+			for {
+				var cand []int
+				for i := 0; i < nr; i++ {
+					if !opened[i] || remaining[i] > 0 {
+						cand = append(cand, i)
+					}
+				}
+				if len(cand) == 0 {
+					break
+				}
+				i := cand[0]
+				if r.Chance(35) {
+					i = pick(r, cand)
+				}
+				if !opened[i] {
+					opened[i] = true
+					sched = append(sched, VL{VN(uint64(i)), VT("open")})
+				} else {
+					remaining[i]--
+					sched = append(sched, VL{VN(uint64(i)), VT("next")})
+				}
+			}
+			// and every exhausted reader is asked once more at the very end
+			for i := 0; i < nr; i++ {
+				sched = append(sched, VL{VN(uint64(i)), VT("next")})
+			}
+			fv := VL{}
+			for _, f := range files {
+				fv = append(fv, VB(f))
+			}
+			in := VL{VN(kind), defaultROpts.val(), fv, sched, c01HokTable(all), VL{}, expect}
+			c.Emit("rthist", in, c01RunHist(kind, defaultROpts, files, sched), true)
+			c.Count("history:" + []string{"root-reader", "carv1-reader", "block-reader"}[kind])
+
+			// positioned sources: the last archive behind a random preamble, every seekable source kind
+			file := files[len(files)-1]
+			ex := expect[len(expect)-1].(VL)
+			ver := uint64(1)
+			if len(file) > 11 && bytes.Equal(file[:11], carv2.Pragma) {
+				ver = 2
+			}
+			pre := r.Bytes(1 + r.Intn(200))
+			for sk := 0; sk < 4; sk++ {
+				for entry := uint64(0); entry < 3; entry++ {
+					in := VL{VN(entry), VB(file), defaultROpts.val(), c01HokTable(all), VL{}, VL{VT("valid"), VN(ver), ex[0], ex[1]}, VB(pre), VN(uint64(sk))}
+					c.Emit("rtpos", in, c01RunPos(c, entry, defaultROpts, file, pre, sk), true)
+					c.Count("positioned:" + []string{"bytes.Reader", "os.File", "SectionReader-seeked", "SectionReader-at-car"}[sk])
+				}
+			}
+		}
 		if c.Thorough {
 			// the 2^21 varint-width boundary: one block with |cid|+|data| in {2^21-2 .. 2^21+1} next to a small one
 			for i, t := range []int{2097150, 2097151, 2097152, 2097153} {
@@ -381,6 +466,70 @@ func init() {
 				o.v1 = wk == 3
 				emit(wk, o, roots, [][]Blk{blks}, nil, false, blks, true)
 				c.Count("boundary:2^21")
+			}
+		}
+		// ---- power-of-two section sizes: |cid|+|data| in {2^k-2 .. 2^k+2} for 2^12, 2^13, 2^16 (buffer sizes a
+		// writer may coalesce or chunk by), next to the varint-width boundaries; every writer kind.  The five
+		// sizes around 2^12 go into one archive per writer; of the five around 2^13 every writer gets two and of
+		// the five around 2^16 one per run (quick, rotating over the writers) or all (thorough).
+		{
+			r := c.R.Fork()
+			probeLen := mkCid(1, 0x55, 0x12, -1, nil).ByteLen()
+			mk := func(t int) Blk {
+				data := r.Bytes(t - probeLen)
+				return Blk{mkCid(1, 0x55, 0x12, -1, data), data}
+			}
+			type wv struct {
+				wk uint64
+				v1 bool
+			}
+			variants := []wv{{0, true}, {0, false}, {1, false}, {2, true}, {2, false}, {3, true}, {4, true}, {4, false}, {5, true}, {7, true}}
+			for vi, v := range variants {
+				var groups [][]Blk
+				for _, k := range []int{4096, 8192} {
+					var g []Blk
+					for d := -2; d <= 2; d++ {
+						if k == 8192 && !c.Thorough && (d+2+vi)%5 > 1 {
+							continue // quick: two of the five sizes around 2^13 per writer, rotating
+						}
+						g = append(g, mk(k+d))
+					}
+					groups = append(groups, g)
+				}
+				if c.Thorough {
+					var g []Blk
+					for d := -2; d <= 2; d++ {
+						g = append(g, mk(65536+d))
+					}
+					groups = append(groups, g)
+				} else {
+					groups = append(groups, []Blk{mk(65536 - 2 + (vi+int(r.Intn(5)))%5), genBlock(r, genOpts{maxData: 40})})
+				}
+				for gi, blks := range groups {
+					roots := []cid.Cid{blks[0].Cid}
+					o := defaultWOpts
+					o.dpad = uint64(pick(r, []int{0, 7}))
+					o.v1 = v.v1
+					if v.wk == 7 {
+						// root WriteCar: every block a raw leaf and a root of its own
+						dag := &gdag{}
+						var droots []cid.Cid
+						for _, b := range blks {
+							n := &dnode{c: b.Cid, data: b.Data}
+							dag.nodes = append(dag.nodes, n)
+							dag.tops = append(dag.tops, n)
+							droots = append(droots, b.Cid)
+						}
+						od := defaultWOpts
+						od.whole, od.storeID, od.v1 = true, true, true
+						obs, vs := c01RunImpl(c, 7, od, droots, nil, dag, r.Bool())
+						c.Emit("rt", c01Input(7, od, droots, nil, vs, blks), obs, true)
+						c.Count("writer:root-WriteCar")
+					} else {
+						emit(v.wk, o, roots, c01Batches(r, blks), nil, false, blks, true)
+					}
+					c.Count("boundary:" + []string{"2^12", "2^13", "2^16"}[gi])
+				}
 			}
 		}
 		for a := 0; a < nArch; a++ {
